@@ -474,6 +474,7 @@ fn run_line(line: &str) -> Option<String> {
             Some(format!("{} => {}", line, r))
         }
         "qlatency" if f.len() == 2 => Some(format!("{} => {}", line, run_latency(f[1].parse().unwrap_or(1)))),
+        "qdroprace" if f.len() == 2 => Some(format!("{} => {}", line, run_droprace(f[1].parse().unwrap_or(1)))),
         "qstress" if f.len() == 4 => {
             let r = run_stress(parse_cap(f[1]), f[2].parse().unwrap_or(2), f[3].parse().unwrap_or(10));
             Some(format!("{} => {}", line, r))
@@ -617,6 +618,45 @@ fn run_burst(cap: usize, threads: usize, per: usize, rounds: usize) -> String {
         drop(q);
         if accepted != cap {
             return format!("capacity-{}-accepted-{}-in-round-{}-queued-{}", cap, accepted, round, queued);
+        }
+    }
+    "ok".to_string()
+}
+
+/// the last two handles are dropped at the same moment on two threads: the worker must still stop and
+/// the wrapped sink must be released (the stop belongs to whichever drop is really the last)
+fn run_droprace(rounds: usize) -> String {
+    for round in 0..rounds {
+        let (etx, erx) = unbounded();
+        let (_gtx, grx) = unbounded::<Out>();
+        let q = QueuingMetricSink::with_capacity(Gated { ev: etx, go: grx }, 4);
+        let q2 = q.clone();
+        let barrier = Arc::new(std::sync::Barrier::new(2));
+        let (b1, b2) = (barrier.clone(), barrier.clone());
+        let t1 = std::thread::spawn(move || {
+            b1.wait();
+            drop(q);
+        });
+        let t2 = std::thread::spawn(move || {
+            b2.wait();
+            drop(q2);
+        });
+        let _ = t1.join();
+        let _ = t2.join();
+        let mut released = false;
+        let t0 = Instant::now();
+        while t0.elapsed() < Duration::from_millis(2000) {
+            match erx.recv_timeout(Duration::from_millis(50)) {
+                Ok(Ev::Dropped) => {
+                    released = true;
+                    break;
+                }
+                Ok(_) => {}
+                Err(_) => {}
+            }
+        }
+        if !released {
+            return format!("wrapped-sink-not-released-after-concurrent-last-drops-round-{}", round);
         }
     }
     "ok".to_string()
@@ -818,6 +858,19 @@ fn backpressure(out: &mut impl Write, count: &mut u64) {
             emit_case(out, Some(cap), true, &ops, count);
         }
     }
+    // a long backlog (gate closed) with panics and errors in the middle: nothing but the panicking
+    // metric may be lost, whatever batching the worker does
+    for (cap, n) in [(None, 150usize), (Some(200usize), 150), (None, 70)] {
+        let mut ops = Vec::new();
+        for i in 0..n {
+            ops.push(format!("e0:{}", mname(0, i)));
+        }
+        for i in 0..n {
+            ops.push(if i == 3 || i == 66 || i == 67 { "p".to_string() } else if i == 40 { "x9".to_string() } else { "k".to_string() });
+        }
+        ops.push("s0".to_string());
+        emit_case(out, cap, true, &ops, count);
+    }
     let mut ops = Vec::new();
     for i in 0..10000 {
         ops.push(format!("e0:{}", mname(0, i)));
@@ -869,6 +922,12 @@ fn main() {
             break;
         }
         if let Some(l) = run_line(&format!("qburst {} {} {} {}", cap, t, per, rounds)) {
+            writeln!(out, "{}", l).unwrap();
+            count += 1;
+        }
+    }
+    if shard0 {
+        if let Some(l) = run_line(&format!("qdroprace {}", if tier == "quick" { 300 } else { 5000 })) {
             writeln!(out, "{}", l).unwrap();
             count += 1;
         }
